@@ -81,6 +81,19 @@ func init() {
 				}
 				cases = append(cases, Case{"doc": Doc{{Deg: "1", Sym: "7", Vals: []Frac{{1, 1}}}}, "tracks": tr, "program": -1, "instrument": "\x00default", "ofile": false, "flags": Flags{}, "huge": true})
 			}
+			// more than 65 536 events in one track (11 001 five-note chords on two voice tracks; 33 000 on one)
+			{
+				big := Doc{}
+				for i := 0; i < 11001; i++ {
+					big = append(big, Inst{Deg: fmt.Sprint(1 + i%7), Sym: "7", Vals: []Frac{{1, 4}}})
+				}
+				for _, tr := range []int{3, 2, 16} {
+					if c.quick() && tr == 16 {
+						continue
+					}
+					cases = append(cases, Case{"doc": big, "tracks": tr, "program": -1, "instrument": "\x00default", "ofile": false, "flags": Flags{}, "huge": true})
+				}
+			}
 			// durations at and beyond what a delta time can hold (4-byte variable-length quantity = 2^28 - 1 ticks = 279,620 beats):
 			// whatever is written must still be a well-formed file (a refusal leaves no file, which claims nothing)
 			long := func(n int) Inst { return Inst{Deg: "1", Sym: "", Vals: []Frac{{n, 1}}} }
@@ -141,13 +154,30 @@ func init() {
 				// too many bytes to walk one TLC state per byte: the strict reader (bound to SMF.tla by every other record) summarises it
 				f := smf.Parse(out)
 				eots := 0
+				// sounding notes per (track, key): a note-off without a sounding note-on is unmatched, a note-on still sounding at the
+				// end is hanging (counted here because the file is too long for one TLC state per byte; SMF.tla does this for all others)
+				sounding := map[[2]int]int{}
+				unmatched := 0
 				for _, e := range f.Events {
-					if e.Kind == smf.KindMeta && e.A == smf.MetaEOT {
+					switch {
+					case e.Kind == smf.KindMeta && e.A == smf.MetaEOT:
 						eots++
+					case e.Kind == smf.KindOn && e.B > 0:
+						sounding[[2]int{e.Track, e.A}]++
+					case e.Kind == smf.KindOff || (e.Kind == smf.KindOn && e.B == 0):
+						if sounding[[2]int{e.Track, e.A}] == 0 {
+							unmatched++
+						} else {
+							sounding[[2]int{e.Track, e.A}]--
+						}
 					}
 				}
-				return []Rec{{"kind": "hugefile", "sub": "huge", "tracks": ci(k, "tracks"), "bytes": len(out), "declared": f.NTracks, "format": f.Format,
-					"readerOk": f.Err == "", "readerErr": f.Err, "eots": eots}}
+				hanging := 0
+				for _, v := range sounding {
+					hanging += v
+				}
+				return []Rec{{"kind": "hugefile", "sub": fmt.Sprint("huge", ci(k, "tracks"), len(d)), "tracks": ci(k, "tracks"), "bytes": len(out), "declared": f.NTracks, "format": f.Format,
+					"readerOk": f.Err == "", "readerErr": f.Err, "eots": eots, "unmatched": unmatched, "hanging": hanging}}
 			}
 			recs := []Rec{fileRec(out, ci(k, "tracks"))}
 			if !cb(k, "ofile") && !cb(k, "debug") {
